@@ -8,8 +8,10 @@
    rounding of sqrt, of the division and of the running sums) is measured by the harness
    (checks/c07.py, prefilter differential), never proved away.
 
-   Hash.  `hash_embedding` feeds `len` and the quantised components `(v*32768).round() as i16`
-   (saturating cast) to a 64-bit SipHash.  NAMED ASSUMPTION (no 64-bit collision): the hash is
+   Hash.  `hash_embedding` feeds `len` and, per component, the u32 bit pattern of
+   `scaled = (v*32768).round()` (with -0.0 folded into +0.0) when `scaled` is finite, else the bit
+   pattern of `v` itself, to a 64-bit SipHash (repaired in /repo 6ba2bfe; before that the component
+   was `scaled as i16`, a SATURATING cast — kept below as `quantise_old`, regression witness only).  NAMED ASSUMPTION (no 64-bit collision): the hash is
    treated as injective on (len, quantised list), so the model key is the quantised list itself
    (its length is the hashed `len`).
 
@@ -72,16 +74,26 @@ Definition Qltb (x y : Q) : bool := negb (Qle_bool y x).
 Definition rha (x : Q) : Z :=
   if Qleb 0 x then Qfloor (x + (1 # 2)) else (- Qfloor (- x + (1 # 2)))%Z.
 
-(* `as i16` on a float: saturates *)
-Definition sat16 (z : Z) : Z := Z.max (-32768) (Z.min 32767 z).
+(* f32::MAX = (2^24 - 1) * 2^104 *)
+Definition f32_max : Q := inject_Z ((2 ^ 24 - 1) * 2 ^ 104).
 
-Definition quant1 (x : Q) : Z := sat16 (rha (x * 32768)).
+(* `val * 32768.0` stays finite.  (For an f32 `val` the product is an exact power-of-two scaling, so
+   it overflows to infinity exactly when |val| * 32768 > f32::MAX.) *)
+Definition fin_scaled1 (x : Q) : bool := Qleb (Qabs x * 32768) f32_max.
+Definition fin_scaled (v : vec) : bool := forallb fin_scaled1 v.
+
+(* The hashed u32, represented by the VALUE whose bit pattern is hashed (two finite f32 with -0
+   folded have equal bits iff equal values): the integer round(32768 v) when finite, otherwise v
+   itself (an f32 that large is an integer; Qfloor is the identity on it).  NaN / infinite
+   components of `val` are not rationals and are not modelled. *)
+Definition quant1 (x : Q) : Z := if fin_scaled1 x then rha (x * 32768) else Qfloor x.
 Definition quantise (v : vec) : list Z := map quant1 v.
 
-(* no component saturates *)
-Definition in_box1 (x : Q) : bool :=
-  let r := rha (x * 32768) in (Z.leb (-32768) r) && (Z.leb r 32767).
-Definition in_box (v : vec) : bool := forallb in_box1 v.
+(* ---- OLD quantisation (before /repo 6ba2bfe), regression witness only ---- *)
+(* `as i16` on a float: saturates *)
+Definition sat16 (z : Z) : Z := Z.max (-32768) (Z.min 32767 z).
+Definition quant1_old (x : Q) : Z := sat16 (rha (x * 32768)).
+Definition quantise_old (v : vec) : list Z := map quant1_old v.
 
 Definition qkey := list Z.
 Definition key := (N * qkey)%type.      (* QueryCacheKey { scope, query_hash } *)
